@@ -370,6 +370,30 @@ def phase_children(c, bindir, hx, child_cases):
                 c.violation("wrapper-output-wrong: child answered everything, %s output differs from the clean run" % name, rep)
         if k != -1 and k < L and rc == 0:
             c.violation("premature-eof-exit-0: %s exits 0 although its child stopped after %d of %d answers (%s, %s)" % (name, k, L, term, mode), rep)
+    # the child dies while the feeder is still blocked writing megabytes into its stdin (EPIPE / SIGPIPE path)
+    big = {"cache": b"".join(b"line number %d\n" % i for i in range(150000)),
+           "foldfilter": b"".join(b"some words, to be folded: %d and more text here\n" % i for i in range(60000)),
+           "b64filter": b"".join(b"bGluZQo=\n" for i in range(200000))}
+    bjobs = []
+    for name, args in (("cache", []), ("foldfilter", ["-w", "20"]), ("b64filter", [])):
+        for k, term in ((0, "exit:0"), (0, "exit:3"), (0, "sig:9"), (7, "exit:0"), (7, "sig:15"), (2000, "sig:9"), (2000, "exit:1"), (2000, "sig:13")):
+            bjobs.append((name, args, k, term))
+
+    def bwork(j):
+        name, args, k, term = j
+        rc, out, err = tr.run([os.path.join(bindir, name)] + args + [vchild, str(k), term, "nodrain"], big[name], timeout=30)
+        return j, rc
+
+    with ThreadPoolExecutor(WORKERS) as ex:
+        bresults = list(ex.map(bwork, bjobs))
+    for (name, args, k, term), rc in bresults:
+        c.count(("big", name, k, term), bucket="child/%s/%s/feeder-blocked" % (name, term.split(":")[0]))
+        rep = {"wrapper": name, "argv": [name] + args + ["$HX/vchild", str(k), term, "nodrain"], "stdin_desc": "%d bytes of lines (see phase_children in checks/C11.py)" % len(big[name]),
+               "child": {"answers_lines": k, "terminates": term, "mode": "nodrain"}, "status": rc}
+        if rc == "timeout":
+            c.violation("wrapper-hang: %s does not terminate when its child (%s after %d answers) dies while the feeder is still writing" % (name, term, k), rep)
+        elif rc == 0:
+            c.violation("premature-eof-exit-0: %s exits 0 although its child ended (%s) after %d answers of a %d-byte input" % (name, term, k, len(big[name])), rep)
     # warc_parallel (not one of the three, same Launch/wait machinery): failures must not be success
     for term in ["exit:0", "exit:3", "sig:9", "sig:15"]:
         rc, out, err = tr.run([os.path.join(bindir, "warc_parallel"), "-j", "2", vchild, "-1", term, "drain"], wp_in, timeout=20)
